@@ -117,12 +117,13 @@ def r71(F):
 
 def r72(F):
     r = RuleResult("R72", "bytes are not widened into text",
-                   "in the tokenizer and the format-template parser no u8 -> char cast reaches String::push / Vec<char>::push / "
-                   "String::insert: a multi-byte UTF-8 sequence must not become several Latin-1 characters", floor=2)
+                   "nowhere in the crate (tokenizer, format-template parser, printer, converters, ..) does a u8 -> char cast reach "
+                   "String::push / Vec<char>::push / String::insert: a multi-byte UTF-8 sequence must not become several Latin-1 "
+                   "characters", floor=2)
     SINKS = ("alloc::string::String::push", "alloc::vec::Vec::push", "alloc::string::String::insert", "alloc::string::String::extend")
     n_cast = 0
     for name, fn in sorted(F.fns.items()):
-        if fn.derived or fn.file not in ("src/tokenizer/mod.rs", "src/build/format.rs"):
+        if fn.derived or not fn.file.startswith("src/") or "::test" in name or "/test" in fn.file:
             continue
         casts = [(b, pl["l"]) for b, j, pl, rv, m in fn.assigns() if rv["k"] == "cast" and rv["from"] == "u8" and rv["to"] == "char"]
         if not casts:
